@@ -5,6 +5,7 @@ CONSTANTS
   FileTok <- Empty
   EnvTok <- Empty
   ExecTok <- Empty
+  MissingExec <- TrMissingExec
   SbomTok <- Empty
   MdVals <- Empty
   Causes <- Empty
